@@ -39,6 +39,29 @@ DEFAULT_EXCEPTIONS = {
 }
 
 
+PROCESS_SETTERS = {"sys.setrecursionlimit", "sys.setswitchinterval", "sys.settrace", "sys.setprofile", "random.seed", "locale.setlocale", "os.chdir", "os.putenv", "os.umask",
+                   "warnings.simplefilter", "warnings.filterwarnings", "gc.disable", "gc.enable", "gc.set_threshold"}
+
+
+def process_setters(tree):
+    """calls / stores inside functions that change a setting of the whole interpreter"""
+    out = []
+    for f in ast.walk(tree):
+        if not isinstance(f, ast.FunctionDef):
+            continue
+        for n in ast.walk(f):
+            if isinstance(n, ast.Call) and (dotted(n.func) or "") in PROCESS_SETTERS:
+                out.append(n)
+            elif isinstance(n, ast.Call) and isinstance(n.func, ast.Attribute) and (dotted(n.func.value) or "") in ("sys.path", "os.environ") and n.func.attr in ("append", "insert", "extend", "update", "setdefault", "pop", "remove"):
+                out.append(n)
+            elif isinstance(n, (ast.Assign, ast.AugAssign, ast.Delete)):
+                for t in (n.targets if isinstance(n, (ast.Assign, ast.Delete)) else [n.target]):
+                    b = t.value if isinstance(t, ast.Subscript) else t
+                    if (dotted(b) or "") in ("os.environ", "sys.path", "sys.stdout", "sys.stderr", "sys.argv"):
+                        out.append(n)
+    return list({id(x): x for x in out}.values())
+
+
 def enclosing_functions(tree):
     """{node id: qualified function name} for every node."""
     out = {}
@@ -204,6 +227,20 @@ def run(model, col, tier):
         col.check(not w, "R18.2", f"{rel}::{name} ({where}-level) is never mutated", "read-only after import",
                   f"`{name}` is bound once at import time and mutated in {[(r2, f.name if isinstance(f, ast.FunctionDef) else 'lambda') for r2, f, _ in w][:3]}: "
                   "what one compilation stores there is seen by the next one in the same process", rel, w[0][2] if w else None)
+    # ---------------- R18.2 (ii-b) no interpreter-wide setting is changed by a compilation ------------
+    probe = ast.parse("def f():\n    import sys\n    sys.setrecursionlimit(2 * sys.getrecursionlimit())\n")
+    if len(process_setters(probe)) != 1:
+        raise AnalysisError("R18.2: the process-setting detector does not fire on its positive example")
+    nfiles = 0
+    for rel, fi in sorted(model.files.items()):
+        if not rel.startswith("nsl/"):
+            continue
+        nfiles += 1
+        hits = process_setters(fi.tree)
+        col.check(not hits, "R18.2", f"{rel}:: changes no interpreter-wide setting", "no sys.setrecursionlimit / os.environ / random.seed / locale / sys.path write inside a function",
+                  (f"`{' '.join(unparse(hits[0]).split())[:70]}` (line {hits[0].lineno})" if hits else "") + " changes a setting of the whole interpreter and never restores it: "
+                  "whether a later compilation in the same process succeeds (or what it prints) depends on what was compiled before", rel, hits[0] if hits else fi.tree)
+    col.floor("R18.2", "files searched for interpreter-wide setters", nfiles, 30)
     # ---------------- R18.2 (iii) mutable default arguments ---------------------------
     md = [x for x in mutable_defaults(model) if x[0].startswith("nsl/")]
     col.note("mutable/object default arguments", [f"{r}::{q}({p}={unparse(d)})" for r, q, p, d, *_ in md])
